@@ -68,6 +68,8 @@ PROPS = {
                   r'^(date|time|timestamp) :: impl DateTime for (Date|Time|Timestamp) / fn ',
                   r'^common :: fn (is_valid_time|is_valid_timestamp)$', r'^common :: const (TIMESTAMP_MIN|TIMESTAMP_MAX)$',
                   r'^time :: impl From<Timestamp> for Time / fn from$',
+                  # "equality, ordering ... of dates, times and timestamps follow chronological order": also across the two types
+                  r'^(date|timestamp) :: impl Partial(Eq|Ord)<(Date|Timestamp)> for (Date|Timestamp) / fn ',
                   r'^(time|timestamp) :: proof fn lemma_ext$',
                   r'^laws :: fn law_c07_'] + TIME_LEMMAS,
         'kinds': FUNCTIONAL,
